@@ -1,8 +1,264 @@
 import Ypv.Drv.Codec
-/-! Driver handler for C16 (stub: replaced by the module that models C16) -/
+import Ypv.Drv.C04
+import Ypv.Drv.C05
+import Ypv.Drv.C18
+import Ypv.Model.Cli
+/-! Driver handler for C16 (the command-line tools).
+
+Requests (`null` stands for "absent"; documents in the canonical JSON of `Codec.lean`):
+* `C16.get`      `{"args":{"file","nostdin","priv","pub"},"tty":b,"ld":doc|null,"q":{"nodes":[doc],"err":null|"ypath"|"eyaml"}}`
+* `C16.set`      `{"args":{…},"tty":b,"ld":null|{"doc":doc|null},"g":{"addrs":[addr],"failed":b},"segs":[pseg]|null}`
+* `C16.merge`    `{"args":{…},"tty":b,"loads":[[doc]|null],"stdin":[doc]|null,"cfg":CFG}`
+* `C16.diff`     `{"args":{…},"l":[doc]|null,"r":[doc]|null,"report":[b]|null}` (`report`: is-SAME flag of every entry of the library's report)
+* `C16.validate` `{"args":{…},"tty":b,"loads":[[b]],"stdin":[b]}`
+* `C16.paths`    `{"args":{…},"tty":b,"loads":[[doc|null]],"stdin":[doc|null],"valid":[[expr,b]],"find":[[doc,expr,[path]]]}`
+-/
 namespace Ypv.Drv.C16
 open Lean (Json)
+open Ypv Ypv.Drv Ypv.Cli
 
-def handle (_op : String) (_j : Json) : Except String Json := throw "C16: driver not implemented yet"
+def nat (n : Nat) : Json := Json.num (Lean.JsonNumber.fromNat n)
+
+def fileArgOf : Json → Except String FileArg
+  | .str "dash" => pure .dash
+  | .str "path" => pure .path
+  | _ => throw "file argument: dash|path"
+
+def optFileOf (j : Json) (k : String) : Except String (Option FileArg) :=
+  match j.getObjVal? k with
+  | .ok .null => pure none
+  | .ok v => (fileArgOf v).map some
+  | .error _ => pure none
+
+def filesOf (j : Json) : Except String (List FileArg) := do
+  (← getArr j "files").toList.mapM fileArgOf
+
+def opt3Of (j : Json) (k : String) : Except String Opt3 :=
+  match j.getObjVal? k with
+  | .ok (.str "good") => pure .good
+  | .ok (.str "bad") => pure .bad
+  | .ok (.str "unset") | .ok .null | .error _ => pure .unset
+  | _ => throw s!"{k}: unset|good|bad"
+
+def flag (j : Json) (k : String) : Bool :=
+  match j.getObjValAs? Bool k with
+  | .ok b => b
+  | .error _ => false
+
+def optStrOf (j : Json) (k : String) : Option Str :=
+  match j.getObjVal? k with
+  | .ok (.str s) => some (s2l s)
+  | _ => none
+
+def optIntOf (j : Json) (k : String) : Option Int :=
+  match j.getObjVal? k with
+  | .ok v => match v.getInt? with
+    | .ok i => some i
+    | .error _ => none
+  | .error _ => none
+
+def docsOf (j : Json) : Except String (List Node) :=
+  match j with
+  | .arr xs => xs.toList.mapM nodeOfJson
+  | _ => throw "document list expected"
+
+def optDocsOf (j : Json) (k : String) : Except String (Option (List Node)) :=
+  match j.getObjVal? k with
+  | .ok .null | .error _ => pure none
+  | .ok v => (docsOf v).map some
+
+def optDocOf (j : Json) : Except String (Option Node) :=
+  match j with
+  | .null => pure none
+  | v => (nodeOfJson v).map some
+
+def boolsOf (j : Json) : Except String (List Bool) :=
+  match j with
+  | .arr xs => xs.toList.mapM (fun b => match b with | .bool v => pure v | _ => throw "bool expected")
+  | _ => throw "flag list expected"
+
+def strsOf (j : Json) (k : String) : Except String (List Str) := do
+  (← getArr j k).toList.mapM (fun s => match s with | .str v => pure (s2l v) | _ => throw "string expected")
+
+/-! ### yaml-get -/
+
+def itemToJson : Item → Json
+  | .json n => Json.mkObj [("json", nodeToJson n)]
+  | .text s => Json.mkObj [("text", l2s s)]
+
+def handleGet (j : Json) : Except String Json := do
+  let aj ← j.getObjVal? "args"
+  let a : GetArgs := ⟨← optFileOf aj "file", flag aj "nostdin", ← opt3Of aj "priv", ← opt3Of aj "pub"⟩
+  let ld ← optDocOf (← j.getObjVal? "ld")
+  let qj ← j.getObjVal? "q"
+  let nodes ← docsOf (← qj.getObjVal? "nodes")
+  let err ← match qj.getObjVal? "err" with
+    | .ok (.str "ypath") => pure (some QErr.ypath)
+    | .ok (.str "eyaml") => pure (some QErr.eyaml)
+    | .ok .null | .error _ => pure none
+    | _ => throw "q.err"
+  let o := get (fun _ => ⟨nodes, err⟩) a (flag j "tty") ld
+  pure (Json.mkObj [("out", Json.arr (o.out.map itemToJson).toArray), ("exit", nat o.exit),
+    ("errors", nat (getErrors a (flag j "tty")).length)])
+
+/-! ### yaml-set -/
+
+def srcOf (j : Json) : Except String Src := do
+  match ← getStr j "k" with
+  | "none" => pure .none
+  | "value" => pure (.value (s2l (← getStr j "v")))
+  | "stdin" => pure (.stdin (s2l (← getStr j "v")))
+  | "file" => pure (.file (s2l (← getStr j "v")))
+  | "null" => pure .null
+  | "random" => pure (.random (← j.getObjValAs? Nat "n"))
+  | "delete" => pure .delete
+  | "aliasof" => pure .aliasof
+  | "mergekey" => pure .mergekey
+  | s => throw s!"src {s}"
+
+def anchorOf (j : Json) : Except String AnchorArg :=
+  match j.getObjVal? "anchor" with
+  | .ok (.str "name") => pure .name
+  | .ok (.str "symbols") => pure .symbolsOnly
+  | .ok (.str "unset") | .ok .null | .error _ => pure .unset
+  | _ => throw "anchor: unset|symbols|name"
+
+def setArgsOf (aj : Json) : Except String SetArgs := do
+  let fmt ← match aj.getObjVal? "fmt" with
+    | .ok (.str s) => C04.fmtOfName s
+    | _ => pure Fmt.default
+  pure { file := ← optFileOf aj "file", nostdin := flag aj "nostdin", src := ← srcOf (← aj.getObjVal? "src"),
+         anchor := ← anchorOf aj, tag := flag aj "tag", backup := flag aj "backup",
+         change := s2l (← getStr aj "change"), saveto := optStrOf aj "saveto", mustexist := flag aj "mustexist",
+         check := optStrOf aj "check", fmt := fmt, eyamlcrypt := flag aj "eyamlcrypt",
+         randomFromShort := flag aj "randomFromShort", priv := ← opt3Of aj "priv", pub := ← opt3Of aj "pub" }
+
+def setOutToJson : Option SetOut → Json
+  | none => Json.mkObj [("unmodelled", .bool true)]
+  | some o => Json.mkObj [("exit", nat o.exit),
+      ("written", match o.written with
+        | some (dst, d) => Json.mkObj [("dest", match dst with | .file => "file" | .stdout => "stdout"),
+                                       ("doc", nodeToJson d)]
+        | none => Json.null),
+      ("backup", match o.backup with | some d => nodeToJson d | none => Json.null)]
+
+def handleSet (j : Json) : Except String Json := do
+  let a ← setArgsOf (← j.getObjVal? "args")
+  let ld : Option (Option Node) ← match j.getObjVal? "ld" with
+    | .ok .null | .error _ => pure none
+    | .ok o => (optDocOf (← o.getObjVal? "doc")).map some
+  let gj ← j.getObjVal? "g"
+  let g : Gather := ⟨← C04.addrsOf gj "addrs", flag gj "failed"⟩
+  let segs ← match j.getObjVal? "segs" with
+    | .ok .null | .error _ => pure none
+    | .ok _ => (C04.psegsOf j "segs").map some
+  let tty := flag j "tty"
+  pure ((setOutToJson (set (fun _ => g) a tty ld segs)).setObjVal! "errors" (nat (setErrors a tty).length))
+
+/-! ### yaml-merge -/
+
+def outArgOf (aj : Json) : Except String OutArg :=
+  match aj.getObjVal? "out" with
+  | .ok .null | .error _ => pure .stdout
+  | .ok o => do
+    match ← getStr o "k" with
+    | "stdout" => pure .stdout
+    | "output" => pure (.output (flag o "exists"))
+    | "overwrite" => pure (.overwrite (flag o "exists"))
+    | s => throw s!"out {s}"
+
+def loadsOf (j : Json) (k : String) : Except String (List (Option (List Node))) := do
+  (← getArr j k).toList.mapM (fun f => match f with
+    | .null => pure none
+    | v => (docsOf v).map some)
+
+def handleMerge (j : Json) : Except String Json := do
+  let aj ← j.getObjVal? "args"
+  let a : MergeArgs := { files := ← filesOf aj, nostdin := flag aj "nostdin", config := ← opt3Of aj "config",
+                         out := ← outArgOf aj, backup := flag aj "backup", mode := ← C18.modeOf (← getStr aj "mode") }
+  let cfg ← C05.getCfg j
+  let tty := flag j "tty"
+  let r := merge (Merge.mergeWith cfg) C18.clsOf a tty (← loadsOf j "loads") (← optDocsOf j "stdin")
+  let errs := nat (mergeErrors a tty).length
+  pure (match r with
+    | none => Json.mkObj [("crash", "IndexError"), ("errors", errs)]
+    | some (.error e) => Json.mkObj [("err", C05.merrToJson e), ("errors", errs)]
+    | some (.ok o) => Json.mkObj [("exit", nat o.exit),
+        ("docs", match o.docs with | some ds => Json.arr (ds.map nodeToJson).toArray | none => Json.null),
+        ("toFile", .bool o.toFile), ("backup", .bool o.backup), ("errors", errs)])
+
+/-! ### yaml-diff -/
+
+def handleDiff (j : Json) : Except String Json := do
+  let aj ← j.getObjVal? "args"
+  let a : DiffArgs := { lhs := ← fileArgOf (← aj.getObjVal? "lhs"), rhs := ← fileArgOf (← aj.getObjVal? "rhs"),
+                        quiet := flag aj "quiet", same := flag aj "same", onlysame := flag aj "onlysame",
+                        config := ← opt3Of aj "config", priv := ← opt3Of aj "priv", pub := ← opt3Of aj "pub",
+                        lidx := optIntOf aj "lidx", ridx := optIntOf aj "ridx" }
+  let rep : Option (List (Nat × Bool)) ← match j.getObjVal? "report" with
+    | .ok .null | .error _ => pure none
+    | .ok v => do
+      let bs ← boolsOf v
+      pure (some ((List.range bs.length).zip bs))
+  let errs := nat (diffErrors a).length
+  pure (match diff (E := Nat × Bool) (·.2) (fun _ _ => rep) a (← optDocsOf j "l") (← optDocsOf j "r") with
+    | none => Json.mkObj [("crash", "IndexError"), ("errors", errs)]
+    | some o => Json.mkObj [("printed", Json.arr (o.printed.map (fun e => nat e.1)).toArray),
+                            ("exit", nat o.exit), ("errors", errs)])
+
+/-! ### yaml-validate -/
+
+def handleValidate (j : Json) : Except String Json := do
+  let aj ← j.getObjVal? "args"
+  let a : ValArgs := ⟨← filesOf aj, flag aj "nostdin", flag aj "quiet", flag aj "verbose"⟩
+  let loads ← (← getArr j "loads").toList.mapM boolsOf
+  let stdin ← boolsOf (← j.getObjVal? "stdin")
+  let tty := flag j "tty"
+  let o := validate a tty loads stdin
+  pure (Json.mkObj [("lines", Json.arr (o.lines.map (fun (f, i, ok) => Json.arr #[nat f, nat i, .bool ok])).toArray),
+    ("exit", nat o.exit), ("errors", nat (valErrors a tty).length)])
+
+/-! ### yaml-paths -/
+
+def optDocsListOf (j : Json) : Except String (List (Option Node)) :=
+  match j with
+  | .arr xs => xs.toList.mapM optDocOf
+  | _ => throw "list of documents/null expected"
+
+def handlePaths (j : Json) : Except String Json := do
+  let aj ← j.getObjVal? "args"
+  let a : PathsArgs := { search := ← strsOf aj "search", exc := ← strsOf aj "exc", files := ← filesOf aj,
+                         nostdin := flag aj "nostdin", priv := ← opt3Of aj "priv", pub := ← opt3Of aj "pub" }
+  let validTab ← (← getArr j "valid").toList.mapM (fun e => match e with
+    | .arr #[.str s, .bool b] => pure (s2l s, b)
+    | _ => throw "valid: [expr, bool]")
+  let findTab ← (← getArr j "find").toList.mapM (fun e => match e with
+    | .arr #[dj, .str s, .arr ps] => do
+      let d ← nodeOfJson dj
+      let ps ← ps.toList.mapM (fun p => match p with | .str v => pure (s2l v) | _ => throw "path text")
+      pure (d, s2l s, ps)
+    | _ => throw "find: [doc, expr, [path]]")
+  let valid : Str → Bool := fun e => (validTab.lookup e).getD false
+  let find : Node → Str → List Str := fun d e =>
+    match findTab.find? (fun (d', e', _) => d' == d && e' == e) with
+    | some (_, _, ps) => ps
+    | none => []
+  let loads ← (← getArr j "loads").toList.mapM optDocsListOf
+  let stdin ← optDocsListOf (← j.getObjVal? "stdin")
+  let tty := flag j "tty"
+  let o := paths valid find a tty loads stdin
+  pure (Json.mkObj [("lines", Json.arr (o.lines.map (fun (f, i, e, p) =>
+      Json.arr #[nat f, nat i, Json.str (l2s e), Json.str (l2s p)])).toArray),
+    ("exit", nat o.exit), ("errors", nat (pathsErrors a tty).length)])
+
+def handle (op : String) (j : Json) : Except String Json :=
+  match op with
+  | "get" => handleGet j
+  | "set" => handleSet j
+  | "merge" => handleMerge j
+  | "diff" => handleDiff j
+  | "validate" => handleValidate j
+  | "paths" => handlePaths j
+  | _ => throw s!"C16: unknown op {op}"
 
 end Ypv.Drv.C16
